@@ -2453,7 +2453,8 @@ End Reg.
 Lemma c16_regularise {blob} (E : env blob) p k :
   codec_ok E -> load E p = Ok k -> (forall n, In n (part_names E p) -> part_name n) ->
   wf E (regularise E p) ->
-  exists k', load E (regularise E p) = Ok k' /\ k_rels k' = k_rels k /             (forall pt, In pt (iter_parts k') <-> In pt (iter_parts k)).
+  exists k', load E (regularise E p) = Ok k' /\ k_rels k' = k_rels k /\
+             (forall pt, In pt (iter_parts k') <-> In pt (iter_parts k)).
 Proof.
   intros Hcodec Hload Hnames Hwfq.
   destruct (load_ok_explicit E p k Hload) as (cb & c & Hcb & Hc & Hkr & Hkp).
@@ -2468,7 +2469,9 @@ Qed.
 Lemma c16_preserved {blob} (E : env blob) p k :
   codec_ok E -> load E p = Ok k -> (forall n, In n (part_names E p) -> part_name n) ->
   wf E (regularise E p) ->
-  (forall x, In x (map p_name (iter_parts k)) <-> (reachable E (regularise E p) x /\ x <> root)) /  (forall r, In r (k_rels k) -> l_ext r = false -> In (l_target r) (map p_name (iter_parts k))) /  (forall pt r, In pt (iter_parts k) -> In r (p_rels pt) -> l_ext r = false ->
+  (forall x, In x (map p_name (iter_parts k)) <-> (reachable E (regularise E p) x /\ x <> root)) /\
+  (forall r, In r (k_rels k) -> l_ext r = false -> In (l_target r) (map p_name (iter_parts k))) /\
+  (forall pt r, In pt (iter_parts k) -> In r (p_rels pt) -> l_ext r = false ->
                 In (l_target r) (map p_name (iter_parts k))).
 Proof.
   intros Hcodec Hload Hnames Hwfq.
